@@ -209,6 +209,11 @@ func (env *Env) lockPred(x *SCall) Value {
 	}
 	arr := env.st.heapArr("LK_H_"+typeKey(mt), SArr)
 	state := Select(arr, env.enc.subObj("H_"+typeKey(t)+"."+f.Name, base.L[0]))
+	if base.Place != nil && base.Place.Kind == PLocal {
+		// an object allocated by this activation that has not escaped yet: its mutexes are free
+		// and its sync.Once has not run
+		state = I(0)
+	}
 	switch x.Fn {
 	case "wheld":
 		return boolVal(Eq(state, I(1)))
@@ -218,6 +223,10 @@ func (env *Env) lockPred(x *SCall) Value {
 		return boolVal(Or(Eq(state, I(1)), Eq(state, I(2))))
 	case "unheld":
 		return boolVal(Eq(state, I(0)))
+	case "done": // sync.Once: Do has completed
+		return boolVal(Eq(state, I(1)))
+	case "oncewf": // sync.Once ghost state is 0 or 1
+		return boolVal(Or(Eq(state, I(0)), Eq(state, I(1))))
 	}
 	env.fail("unknown lock predicate")
 	return Value{}
@@ -342,4 +351,49 @@ func initLockNatives() {
 	natives["(*sync.RWMutex).Unlock"] = lockNative("assumed: ghost state 1->0", []int64{1}, 0, "Unlock")
 	natives["(*sync.RWMutex).RLock"] = lockNative("assumed: shared lock; ghost state 0->2", nil, 2, "RLock")
 	natives["(*sync.RWMutex).RUnlock"] = lockNative("assumed: ghost state 2->0", []int64{2}, 0, "RUnlock")
+	// (*sync.Once).Do(f): ghost state of the Once value 0 (not done) -> 1 (done). On a Once that is
+	// not done, f is called once, synchronously, and the Once is done afterwards; on a done Once
+	// nothing happens. The two cases are executed separately and merged.
+	natives["(*sync.Once).Do"] = &native{
+		doc: "assumed: Once.Do(f) on a Once that has not run yet calls f exactly once, synchronously, then marks the Once done; on a Once that is done it does nothing (ghost state 0->1)", havocAll: true,
+		apply: func(fv *FuncVerifier, st *State, cc *ssa.CallCommon, args []Value, pos token.Pos) Value {
+			var name string
+			var obj Term
+			if args[0].Place == nil {
+				pt, ok := args[0].Typ.Underlying().(*types.Pointer)
+				if !ok {
+					panic(unsupported("sync.Once.Do on a non-pointer"))
+				}
+				name, obj = "LK_H_"+typeKey(pt.Elem()), args[0].L[0]
+			} else {
+				var ok bool
+				name, obj, ok = lockArrayOfPlace(st.resolve(args[0].Place))
+				if !ok {
+					panic(unsupported("sync.Once.Do on a local Once"))
+				}
+			}
+			clo := args[1].Clo
+			var c *FuncContract
+			if clo != nil {
+				c = fv.db.Funcs[clo.Fn.String()]
+			}
+			if c == nil {
+				fv.enc.havocAllCalls["sync.Once.Do with a callback without contract"] = true
+				st.havocAll()
+				la := st.heapArr(name, SArr)
+				st.setHeap(name, Store(la, obj, I(1)))
+				return Value{}
+			}
+			cur := Select(st.heapArr(name, SArr), obj)
+			a := st.clone()
+			a.assume(Eq(cur, I(1)))
+			b := st.clone()
+			b.assume(Eq(cur, I(0)))
+			fv.applyContract(b, c, clo.Fn.String(), nil, nil, clo.Fn.Signature, &calleeInfo{fn: clo.Fn, clo: clo}, pos)
+			b.setHeap(name, Store(b.heapArr(name, SArr), obj, I(1)))
+			m := fv.merge2(a, b)
+			*st = *m
+			return Value{}
+		},
+	}
 }
